@@ -221,4 +221,110 @@ theorem C04_inv_reachable_partial : ∀ (ops : List Op) (w : World), (∀ op ∈
 theorem C04_inv_gives_loop_keys (w : World) (h : WInv w) : ∀ c s, w.cifs.getD c none = some s → LoopPK s.db :=
   fun c s hs => (h c s hs).db.toLoopPK
 
+
+-- ---- corollaries named by the property, proved on the model ---------------------------------------------------------------
+
+/-- CIFs are independent: an op leaves every CIF other than the one its handle belongs to exactly as it was
+    (stated for the ops whose target CIF is explicit; the handle-addressed ops go through `World.setCif` on the CIF of the
+    handle in the same way — see `step`) -/
+theorem cifs_independent (w : World) (c c' : Nat) (n : Option Name) (hne : c' ≠ c) :
+    (step w (.mkBlock c n)).1.cifs.getD c' none = w.cifs.getD c' none := by
+  simp only [step]
+  split
+  · rfl
+  · simp only [World.setCif, List.getD, List.getElem?_set_ne (Ne.symm hne)]
+
+/-- the scalar loop's category cannot be GIVEN to a loop: set_category with "" is always refused, whatever the loop -/
+theorem scalar_category_cannot_be_given (s : Store) (l : LH) :
+    setCategory s l (some []) = (s, l, .error CIF_RESERVED_LOOP) := by
+  simp [setCategory, catReserved]
+
+/-- … nor TAKEN by naming another category: a handle that knows its loop as the scalar loop refuses every non-NULL category.
+    (With NULL the C — and so the model — lets it through: open finding F32, `C04_cex_F32`.) -/
+theorem scalar_category_cannot_be_taken_partial (s : Store) (l : LH) (c : Str) (hl : l.category = some []) :
+    setCategory s l (some c) = (s, l, .error CIF_RESERVED_LOOP) := by
+  simp [setCategory, catReserved, hl]
+
+/-- removing a loop's last item removes the loop: with one item left, the statement executed is DESTROY_LOOP_SQL -/
+theorem remove_last_item_removes_loop (d : Db) (cid ln : Nat) (k : Str) (hsz : d.loopSize cid k = some (ln, 1)) :
+    (if (d.loopSize cid k).map (·.2) == some 1 then (d.destroyLoop cid ln).1 else d.removeItem cid k) = d.deleteLoops (fun l => l.cid == cid && l.loopNum == ln) := by
+  simp [hsz, Db.destroyLoop]
+
+/-- names are returned in the spelling with which they were created: a block code comes back as given to create_block -/
+theorem names_returned_as_created (s : Store) (n : Name) (h : CH) (hc : (createBlock s (some n)).2 = .ok h) : h.code = n.orig := by
+  revert hc
+  unfold createBlock
+  split
+  · intro h; cases h
+  · split
+    · intro h; cases h
+    · split
+      · intro h; cases h
+      · simp only []
+        split
+        · intro h; cases h
+        · rename_i heq _ _ _ _ _ _ _
+          intro h; simp only [Except.ok.injEq] at h; rw [← h]; cases heq; rfl
+
+/-- set_value on an existing item writes the value into every packet of its loop (SET_ALL_VALUES_SQL): afterwards the item
+    has a value in exactly the rows of the loop -/
+theorem set_value_all_packets_or_new_scalar (d : Db) (cid ln : Nat) (k : Str) (v : V) (hl : d.loopOfItem cid k = some ln) :
+    ∀ r ∈ d.loopRows cid ln, { cid := cid, name := k, rowNum := r, val := v } ∈ (d.setAllValues cid k v).1.values := by
+  intro r hr
+  simp only [Db.setAllValues, hl]
+  exact List.mem_append_right _ (List.mem_map.mpr ⟨r, hr, rfl⟩)
+
+/-- destroying a container removes its loops (with their items and values), its data_block / save_frame rows and nothing
+    of any other container: every loop, item and value row of another container stays -/
+theorem destroy_removes_subtree_only (d : Db) (id : Nat) (l : LoopRow) (hl : l ∈ d.loops) (hne : l.cid ≠ id) :
+    l ∈ (d.deleteContainer id).1.loops := by
+  unfold Db.deleteContainer
+  simp only []
+  split
+  · exact hl
+  · simp only [Db.deleteLoops, Db.deleteItems]
+    rw [List.mem_filter]
+    exact ⟨hl, by simp [hne]⟩
+
+-- ---- refinement to the documented data model -----------------------------------------------------------------------------------
+
+/-- FULL (not proved): with `PacketsComplete` (every packet stores a value for every item of its loop — what the documentation
+    promises and F30 breaks) and names consistent with `norm`, every loop-level op of the model commutes with `abs` and the
+    Spec operation of Spec/DataModel.lean, e.g. for add_packet: -/
+def C04_refines_full : Prop :=
+  ∀ (norm : Str → Str) (d d' : Db) (l : LH) (row : LoopRow) (pkt : List (Str × V)),
+    Inv d → (∀ i ∈ d.items, i.name = norm i.nameOrig) →
+    row ∈ d.loops → row.cid = l.cid → row.loopNum = l.loopNum →
+    (∀ i ∈ d.loopItems l.cid l.loopNum, pkt.any (fun e => e.1 == i.name) = true) →
+    addPacketBody l pkt d = .ok (d', ()) →
+    ∃ row' ∈ d'.loops, row'.cid = l.cid ∧ row'.loopNum = l.loopNum ∧
+      ((absLoop d row).specAddPacket norm pkt).toOption.map (·.packets.length) = some (absLoop d' row').packets.length
+
+-- the two open findings, as counterexamples to the documented model (kernel-checked on the model of the CURRENT code)
+private def nm (k : Str) : Name := { key := k, orig := k, valid := true }
+private def hist30 : List Op := [.cifNew, .mkBlock 0 (some (nm (a!"b"))), .mkLoop 0 (some (a!"cat")) [nm (a!"_a"), nm (a!"_b")],
+  .addPkt 0 [(a!"_a", .na)], .rmItem 0 (some (nm (a!"_a")))]
+/-- (loops, items, stored values) of the single CIF after a history -/
+private def countsAfter (ops : List Op) : List (Nat × Nat × Nat) :=
+  (run {} ops).1.cifs.map (fun c => match c with
+    | some s => (s.db.loops.length, s.db.items.length, s.db.values.length)
+    | none => (0, 0, 0))
+
+/-- F30: create_loop(_a,_b); add_packet({_a}); remove_item(_a) — the model (= the C) ends with a loop `_b` WITHOUT packets, the
+    documented model keeps the packet (`_b` = unknown) -/
+theorem C04_cex_F30 :
+    countsAfter hist30 = [(1, 1, 0)] ∧
+    (((({ category := some (a!"cat"), names := [a!"_a", a!"_b"], packets := [] } : Loop).specAddPacket id [(a!"_a", .na)]).toOption.bind
+        (fun l => l.specRemoveItem id (a!"_a"))).map (fun l => l.packets.length)) = some 1 := by decide
+
+/-- F32: set_category(scalar loop, NULL) succeeds in the model (= the C); the documented model refuses it -/
+theorem C04_cex_F32 :
+    ((run {} [.cifNew, .mkBlock 0 (some (nm (a!"b"))), .setVal 0 (some (nm (a!"_s"))) (some .na), .itemLoop 0 (some (nm (a!"_s"))),
+        .setCat 0 none]).2.map (·.rc)) = [some 0, some 0, some 0, some 0, some 0] ∧
+    (({ category := some [], names := [a!"_s"], packets := [[.na]] } : Loop).specSetCategory none).toOption.isNone = true := by decide
+
+-- non-vacuity of the invariant theorems: a history with failing and succeeding ops reaches a non-trivial state
+example : countsAfter [.cifNew, .mkBlock 0 (some (nm (a!"b"))), .mkLoop 0 none [nm (a!"_a"), nm (a!"_b")],
+    .addPkt 0 [(a!"_a", .na), (a!"_b", .unk)], .addPkt 0 [(a!"_a", .na), (a!"_zz", .unk)], .setVal 0 (some (nm (a!"_s"))) none] = [(2, 3, 3)] := by decide
+
 end CifModel
